@@ -263,6 +263,70 @@ class Ctx:
         return results
 
 
+def tail_paths(f, limit=4000):
+    """simple paths through the loop-free tail of f (the nodes after the last loop) that end in a return.
+    -> list of paths (node ids); [] when the tail is not a clean region"""
+    headers = [n.id for n in f.nodes if n.kind in ('for', 'while')]
+    tail = set()
+    for n in f.nodes:
+        if n.loops or n.kind in ('for', 'while') or n.id in (f.exit.id, f.raise_exit.id):
+            continue
+        if not (f.reachable_from(n.id) & set(headers)):
+            tail.add(n.id)
+    entries = [i for i in sorted(tail) if any(p not in tail for p in f.nodes[i].pred) or not f.nodes[i].pred]
+    out = []
+
+    def rec(i, path):
+        if len(out) > limit:
+            raise AnalysisError("%s: too many paths through the tail" % f.fq)
+        path = path + [i]
+        for s in f.nodes[i].succ:
+            if s == f.exit.id:
+                out.append(path)
+            elif s in tail and s not in path and f.nodes[s].kind != 'except':
+                rec(s, path)
+    for e in entries:
+        # only entries every path into which comes from outside the tail region start a path
+        rec(e, [])
+    return out
+
+
+def paths_between(f, src, dst, avoid=(), limit=2000):
+    """simple CFG paths src .. dst (node ids, both included) that stay out of `avoid`; implicit-exception edges are not followed"""
+    out = []
+    avoid = set(avoid)
+
+    def rec(i, path):
+        if len(out) > limit:
+            raise AnalysisError("%s: too many paths between lines %d and %d" % (f.fq, f.nodes[src].lineno, f.nodes[dst].lineno))
+        path = path + [i]
+        if i == dst:
+            out.append(path)
+            return
+        for s in f.nodes[i].succ:
+            if s in path or s in avoid or s in (f.exit.id, f.raise_exit.id) or f.nodes[s].kind == 'except':
+                continue
+            rec(s, path)
+    rec(src, [])
+    return out
+
+
+def path_feasible(f, path, atom=None, given=()):
+    """evaluate the branch tests met on `path` with the values the path itself establishes
+    -> False (some test contradicts the path), True (all tests agree), None (some test is not evaluable)"""
+    from .finite import feval, UNKNOWN
+    events, env = walk_path(f, path)
+    unknown = False
+    for e in events:
+        if e.kind == 'test' and e.extra is not None:
+            v = feval(e.term, atom or (lambda x: UNKNOWN))
+            if v is UNKNOWN:
+                unknown = unknown or e.node.id not in given      # tests in `given` are the premise of the path
+            elif bool(v) != e.extra:
+                return False
+    return None if unknown else True
+
+
 def loop_vars(f, loop):
     """terms of the target names of a for loop: {name: term}"""
     out = {}
@@ -407,7 +471,7 @@ def walk_path(f, path, env=None):
                         events.append(Event('store', nd, d.name, tb.build(d.value) if d.value is not None else None,
                                             tb.build(_as_load(d.extra))))
             for c in _calls_in(st.value):
-                _call_event(events, nd, tb, c)
+                _call_event(events, nd, tb, c, env)
             env.update(new)
         elif isinstance(st, ast.AugAssign):
             from .core import fold_bin, _BINOPS
@@ -419,11 +483,11 @@ def walk_path(f, path, env=None):
             else:
                 events.append(Event('augstore', nd, base_name_of(st.target), val, tb.build(_as_load(st.target))))
             for c in _calls_in(st.value):
-                _call_event(events, nd, tb, c)
+                _call_event(events, nd, tb, c, env)
         elif isinstance(st, ast.Expr):
             events.append(Event('expr', nd, None, tb.build(st.value)))
             for c in _calls_in(st.value):
-                _call_event(events, nd, tb, c)
+                _call_event(events, nd, tb, c, env)
         elif isinstance(st, ast.Return):
             events.append(Event('return', nd, None, tb.build(st.value) if st.value is not None else ('c', None)))
         elif isinstance(st, ast.Raise):
@@ -448,9 +512,14 @@ def _calls_in(expr):
     return [c for c in ast.walk(expr) if isinstance(c, ast.Call)]
 
 
-def _call_event(events, nd, tb, c):
+def _call_event(events, nd, tb, c, env=None):
     fn = c.func
     if isinstance(fn, ast.Attribute) and fn.attr in ('append', 'add', 'insert', 'extend'):
         b = base_name_of(fn.value)
         if b is not None:
-            events.append(Event(fn.attr, nd, b, tuple(tb.build(a) for a in c.args), tb.build(fn.value)))
+            args = tuple(tb.build(a) for a in c.args)
+            events.append(Event(fn.attr, nd, b, args, tb.build(fn.value)))
+            # a list display built up on this path keeps its items:  xs = [a]; xs.append(b)  ->  [a, b]
+            cur = env.get(b) if env is not None and isinstance(fn.value, ast.Name) else None
+            if fn.attr == 'append' and len(args) == 1 and cur is not None and cur[0] == 'list':
+                env[b] = cur + (args[0],)
